@@ -4,13 +4,19 @@ from contracts import blocking
 ID = "C13"
 T = "paramiko.transport.Transport."
 TARGETS = [T + "accept", T + "close", "paramiko.transport.ServiceRequestingTransport.ensure_session",
-           "paramiko.proxy.ProxyCommand.recv", T + "run::part[shutdown]"]
+           "paramiko.proxy.ProxyCommand.recv", T + "run::part[shutdown]", (T + "open_channel::part[wait-for-the-peer]", "polling", {})]
 REPLAY = {"*": "c13.replay_blocking"}
 
 
 def setup(E):
     blocking.declare(E)
     blocking.declare_shutdown(E)
+    saved = dict(E.classdecl[E.resolve_class('paramiko.transport.Transport')]['fields'])
+    blocking.declare_open_channel(E)
+    global TARGETS
+    qn = T + 'open_channel::part[wait-for-the-peer]'
+    TARGETS[-1] = (qn, 'polling', dict(E.contracts[qn], **{'+fields': {'paramiko.transport.Transport': {'_channels': 'opaque:ChanMap2'}}}))
+    E.classdecl[E.resolve_class('paramiko.transport.Transport')]['fields'] = saved
 
 
 CLAIMED = True
